@@ -277,37 +277,40 @@ Proof.
   exists t. subst m. simpl. auto.
 Qed.
 
-Theorem mixin_lookup_total_partial cfg k own m key :
-  c_add_iam cfg = false \/ k = Sync ->
+(* every key a mixin or legacy-IAM client method looks up in _wrapped_methods is a key of the table of its transport.
+   (Before /repo bb707ed the legacy IAM methods of the asyncio client refuted this: DESIGN section 9 no. 3.) *)
+Theorem mixin_lookup_total cfg k own m key :
   In m (client_methods k cfg) -> m_lookup m = Some key -> In key (table_keys cfg own).
 Proof.
-  intros Hyp Hin Hl. unfold client_methods in Hin. apply in_app_or in Hin as [Hin|Hin].
+  intros Hin Hl. unfold client_methods in Hin. apply in_app_or in Hin as [Hin|Hin].
   - apply in_mixin_client in Hin as (t & T1 & T2 & T3 & T4 & T5). rewrite T4 in Hl. inversion Hl. subst key.
     unfold table_keys, mixin_table_keys. apply in_or_app. right. apply in_map.
     unfold tmpl_on in T2. apply andb_true_iff in T2 as [_ T2]. now apply mem_In.
-  - unfold legacy_methods in Hin. destruct Hyp as [Hyp|Hyp].
-    + rewrite Hyp in Hin. contradiction.
-    + subst k. destruct (c_add_iam cfg); [|contradiction].
-      apply in_map_iff in Hin as (n & E & _). subst m. discriminate.
+  - unfold legacy_methods in Hin. destruct (c_add_iam cfg); [|contradiction].
+    apply in_map_iff in Hin as (n & E & _). subst m. destruct k; discriminate.
 Qed.
 
-(* the witness of DESIGN section 9 no. 3: add-iam-methods without the IAM mixin, asyncio client *)
-Definition legacy_cfg : config := mkCfg [] [] [["GetWidget"]] true.
-Theorem mixin_lookup_total_refuted :
-  exists cfg own m key, In m (client_methods Async cfg) /\ m_lookup m = Some key /\ ~ In key (table_keys cfg own).
+(* the legacy methods never index the table: they wrap the transport property, which exists on the gRPC transports *)
+Theorem legacy_methods_wrap_existing_property cfg k m :
+  In m (legacy_methods k cfg) -> m_lookup m = None /\ In (m_name m) (grpc_props cfg).
 Proof.
-  exists legacy_cfg, ["get_widget"], (mkM "set_iam_policy" (Some "set_iam_policy") "resource" true), "set_iam_policy".
-  split; [|split].
-  - vm_compute. left. reflexivity.
-  - reflexivity.
-  - vm_compute. intros [H|[]]. discriminate.
+  unfold legacy_methods. destruct (c_add_iam cfg) eqn:A; [|contradiction]. intro H.
+  apply in_map_iff in H as (n & E & Hn). subst m. simpl. split; [destruct k; reflexivity|].
+  unfold grpc_props, grpc_stubs. rewrite A. apply in_map_iff.
+  destruct Hn as [<-|[<-|[<-|[]]]];
+    [exists (mkS "SetIamPolicy" GIam "/google.iam.v1.IAMPolicy/SetIamPolicy" "google.iam.v1.SetIamPolicyRequest" (Some "google.iam.v1.Policy"))
+    |exists (mkS "GetIamPolicy" GIam "/google.iam.v1.IAMPolicy/GetIamPolicy" "google.iam.v1.GetIamPolicyRequest" (Some "google.iam.v1.Policy"))
+    |exists (mkS "TestIamPermissions" GIam "/google.iam.v1.IAMPolicy/TestIamPermissions" "google.iam.v1.TestIamPermissionsRequest" (Some "google.iam.v1.TestIamPermissionsResponse"))];
+    (split; [reflexivity|]); apply in_or_app; right; vm_compute; tauto.
 Qed.
 
-(* when the legacy methods do find their key: exactly when the IAM mixin method itself is selected (or the API has its own) *)
-Theorem legacy_async_lookup_iff cfg own n :
-  c_add_iam cfg = true -> In n LEGACY ->
-  (In (snake n) (table_keys cfg own) <-> In (snake n) own \/ In (snake n) (mixin_table_keys cfg)).
-Proof. intros _ _. unfold table_keys. split; [apply in_app_or | apply in_or_app]. Qed.
+(* the former witness of DESIGN section 9 no. 3 (add-iam-methods without the IAM mixin, asyncio client): no lookup left *)
+Definition legacy_cfg : config := mkCfg [] [] [["GetWidget"]] true.
+Example legacy_cfg_no_lookup :
+  map (fun m => (m_name m, m_lookup m)) (client_methods Async legacy_cfg) =
+  [("set_iam_policy", None); ("get_iam_policy", None); ("test_iam_permissions", None)] /\
+  grpc_props legacy_cfg = ["set_iam_policy"; "get_iam_policy"; "test_iam_permissions"].
+Proof. vm_compute. split; reflexivity. Qed.
 
 (* ---------- the transport can be constructed: every mixin key of the table has a property on the gRPC transports ---------- *)
 Definition group_of_mod (m : string) : option group :=
